@@ -1,8 +1,10 @@
-import PlumVerif.Model.Events
+import PlumVerif.Model.EventsObs
+import PlumVerif.Spec.C13
 /-
 Line-protocol front end for the event-dispatch machine (C13).
 
-  c13 <scripts> <op>*   ->  ok|reject@<k> LOG <entries> SNAPS <snapshot>;<snapshot>;…
+  c13 <scripts> <op>*   ->  ok|reject@<k> LOG <entries> SNAPS <snapshot>;<snapshot>;… W <wmeta>,…
+  c13judge <scripts> <op>* | <entries> | <snapshot>;… | <wmeta>,…   ->  pass | fail:<clauses>   (C13.spec on an observation)
 
   scripts : S<cb>:<susp>:<k|a<c>>,…   (callback function scripts; `S-` for none; unlisted = 0 suspensions, returns None)
   op      : sub:<n>:<cb> | once:<n>:<cb> | unsub:<n>:<cb> | unsubo:<n>:<sid>
@@ -10,24 +12,13 @@ Line-protocol front end for the event-dispatch machine (C13).
           | rel:<i>        the suspension dispatch task i is waiting on is released (the task becomes ready)
           | settle         the ready tasks run in FIFO order (asyncio's ready queue) until none is ready
           | adv:<t>        the clock reaches t
-  The harness replays the schedule it chose on the implementation; the driver turns it into the event
-  list of the machine (`stepD i` / `stepW j` in ready-queue order; tasks woken by a store are queued
-  behind what is already ready) and rejects a `rel` of a task that is not suspended.
-  LOG entry  : <task>.<cb>.<sid>.<value>
-  snapshot   : after every `settle` and `adv`: D<n>=<v|->… T<i>=<c|s<cb>|d<final>>… W<j>=<c|w|k|r<v>@<t>|x@<t>>… @<now>
+  The harness replays the schedule it chose on the implementation; `C13.doOp` turns it into the event
+  list of the machine and rejects a `rel` of a task that is not suspended.
+  LOG entry  : <task>.<cb>.<value>            (`-` when empty)
+  snapshot   : <op>/<now>/<d0>,<d1>,<d2>/<per dispatch: d | s<cb> | c>,…/<per waiter: n | w<deadline or -> | r<v>@<t> | x@<t>>,…
+  wmeta      : <started 0|1>:<t0>:<had 0|1>:<final waiter state>
 -/
 namespace PlumVerif.C13
-
-inductive Ready where
-  | d (i : Nat)
-  | w (j : Nat)
-  deriving DecidableEq, Repr
-
-structure Drv where
-  s : St
-  ready : List Ready
-  snaps : List String
-  bad : Option Nat        -- index of the first op the machine does not accept
 
 def parseScripts (str : String) : Option (Nat → Script) :=
   match str.toList with
@@ -47,87 +38,103 @@ def parseScripts (str : String) : Option (Nat → Script) :=
       pure fun c => ((items.find? (·.1 == c)).map (·.2)).getD ⟨0, .keep⟩
   | _ => none
 
-def showOpt (o : Option Nat) : String := match o with | some v => toString v | none => "-"
-
-def showD (t : DTask) : String :=
-  match t.ph with
-  | .absent => "?"
-  | .created => "c"
-  | .running => "?"
-  | .inCb _ u _ _ => s!"s{u.cb}"
-  | .done f => s!"d{f}"
-
-def showW (t : WTask) : String :=
-  match t.ph with
-  | .absent => "?"
-  | .created => "c"
-  | .waiting _ => "w"
-  | .woken => "k"
-  | .returned v a => s!"r{v}@{a}"
-  | .timedOut a => s!"x@{a}"
-
-def snapshot (s : St) : String :=
-  String.intercalate " " (
-    ((List.range 3).map fun n => s!"D{n}={showOpt (s.data n)}") ++
-    ((List.range s.nd).map fun i => s!"T{i}={showD (s.d i)}") ++
-    ((List.range s.nw).map fun j => s!"W{j}={showW (s.w j)}") ++ [s!"@{s.now}"])
-
-def isWaiting (t : WTask) : Bool := match t.ph with | .waiting _ => true | _ => false
-def isWoken (t : WTask) : Bool := match t.ph with | .woken => true | _ => false
-
-/-- run the ready queue (fuel bounds the loop; every step either finishes a task, consumes a
-suspension, or starts a task, so `fuel` = a generous bound chosen by the caller) -/
-def settle (sc : Nat → Script) : Nat → St → List Ready → St
-  | 0, s, _ => s
-  | _, s, [] => s
-  | fuel + 1, s, .d i :: rest =>
-    let s' := step sc s (.stepD i)
-    let newly := (List.range s.nw).filter fun j => isWaiting (s.w j) && isWoken (s'.w j)
-    settle sc fuel s' (rest ++ newly.map Ready.w)
-  | fuel + 1, s, .w j :: rest => settle sc fuel (step sc s (.stepW j)) rest
-
 def parseOptNat (x : String) : Option (Option Nat) :=
   if x = "-" then some none else x.toNat?.map some
 
-def doOp (sc : Nat → Script) (k : Nat) (dv : Drv) (op : String) : Option Drv :=
+def parseOp (op : String) : Option Op :=
   match op.splitOn ":" with
-  | ["sub", n, c] => do pure { dv with s := step sc dv.s (.subscribe (← n.toNat?) (← c.toNat?)) }
-  | ["once", n, c] => do pure { dv with s := step sc dv.s (.subscribeOnce (← n.toNat?) (← c.toNat?)) }
-  | ["unsub", n, c] => do pure { dv with s := step sc dv.s (.unsubCb (← n.toNat?) (← c.toNat?)) }
-  | ["unsubo", n, x] => do pure { dv with s := step sc dv.s (.unsubOnce (← n.toNat?) (← x.toNat?)) }
-  | ["disp", n, v] => do
-    pure { dv with ready := dv.ready ++ [.d dv.s.nd], s := step sc dv.s (.spawnDispatch (← n.toNat?) (← v.toNat?)) }
-  | ["get", n, t] => do
-    pure { dv with ready := dv.ready ++ [.w dv.s.nw], s := step sc dv.s (.spawnWait (← n.toNat?) (← parseOptNat t)) }
-  | ["rel", i] => do
-    let i ← i.toNat?
-    let ok := (match (dv.s.d i).ph with | .inCb .. => true | _ => false) && !dv.ready.contains (.d i)
-    pure { dv with ready := dv.ready ++ [.d i], bad := if ok then dv.bad else dv.bad.or (some k) }
-  | ["settle"] =>
-    let s' := settle sc 10000 dv.s dv.ready
-    pure { dv with s := s', ready := [], snaps := dv.snaps ++ [snapshot s'] }
-  | ["adv", t] => do
-    let t ← t.toNat?
-    let s' := step sc dv.s (.advance t)
-    pure { dv with s := s', snaps := dv.snaps ++ [snapshot s'],
-                   bad := if dv.ready.isEmpty then dv.bad else dv.bad.or (some k) }
+  | ["sub", n, c] => do pure (.sub (← n.toNat?) (← c.toNat?))
+  | ["once", n, c] => do pure (.once (← n.toNat?) (← c.toNat?))
+  | ["unsub", n, c] => do pure (.unsub (← n.toNat?) (← c.toNat?))
+  | ["unsubo", n, x] => do pure (.unsubo (← n.toNat?) (← x.toNat?))
+  | ["disp", n, v] => do pure (.disp (← n.toNat?) (← v.toNat?))
+  | ["get", n, t] => do pure (.get (← n.toNat?) (← parseOptNat t))
+  | ["rel", i] => do pure (.rel (← i.toNat?))
+  | ["settle"] => some .settle
+  | ["adv", t] => do pure (.adv (← t.toNat?))
   | _ => none
 
-def runOps (sc : Nat → Script) : Nat → Drv → List String → Option Drv
-  | _, dv, [] => some dv
-  | k, dv, op :: ops => do runOps sc (k + 1) (← doOp sc k dv op) ops
+def showOpt (o : Option Nat) : String := match o with | some v => toString v | none => "-"
 
-def showLog (l : List LogE) : String :=
-  if l.isEmpty then "-" else String.intercalate "," (l.map fun e => s!"{e.task}.{e.sub.cb}.{e.sub.sid}.{e.val}")
+def showW : WSt → String
+  | .notYet => "n"
+  | .waiting dl => s!"w{showOpt dl}"
+  | .returned v a => s!"r{v}@{a}"
+  | .timedOut a => s!"x@{a}"
+
+def joinOr (l : List String) : String := if l.isEmpty then "-" else String.intercalate "," l
+
+def showSnap (sn : Snap) : String :=
+  let ds := (sn.done.zip sn.susp).map fun (dn, su) =>
+    if dn then "d" else match su with | some cb => s!"s{cb}" | none => "c"
+  s!"{sn.op}/{sn.now}/{joinOr (sn.data.map showOpt)}/{joinOr ds}/{joinOr (sn.ws.map showW)}"
+
+def showMeta (m : WMeta) : String :=
+  s!"{if m.started then 1 else 0}:{m.t0}:{if m.had then 1 else 0}:{showW m.fin}"
+
+def showLog (l : List LogO) : String := joinOr (l.map fun e => s!"{e.task}.{e.cb}.{e.val}")
+
+def parseW (s : String) : Option WSt :=
+  match s.toList with
+  | ['n'] => some .notYet
+  | 'w' :: r => (parseOptNat (String.ofList r)).map .waiting
+  | 'r' :: r =>
+    match (String.ofList r).splitOn "@" with
+    | [v, a] => do pure (.returned (← v.toNat?) (← a.toNat?))
+    | _ => none
+  | 'x' :: '@' :: r => (String.ofList r).toNat?.map .timedOut
+  | _ => none
+
+def splitList (s : String) : List String := if s = "-" then [] else s.splitOn ","
+
+def parseSnap (s : String) : Option Snap :=
+  match s.splitOn "/" with
+  | [k, now, d, t, w] => do
+    let data ← (splitList d).mapM parseOptNat
+    let ts := splitList t
+    let done := ts.map (· == "d")
+    let susp := ts.map fun x => match x.toList with | 's' :: r => (String.ofList r).toNat? | _ => none
+    let ws ← (splitList w).mapM parseW
+    pure ⟨← k.toNat?, ← now.toNat?, data, done, susp, ws⟩
+  | _ => none
+
+def parseMeta (s : String) : Option WMeta :=
+  match s.splitOn ":" with
+  | [st, t0, had, fin] => do pure ⟨st == "1", ← t0.toNat?, had == "1", ← parseW fin⟩
+  | _ => none
+
+def parseLogO (s : String) : Option LogO :=
+  match s.splitOn "." with
+  | [t, c, v] => do pure ⟨← t.toNat?, ← c.toNat?, ← v.toNat?⟩
+  | _ => none
+
+/-- the clauses of `spec` that fail (for the harness's report) -/
+def failing (sc : Nat → Script) (ops : List Op) (o : Obs) : List String :=
+  (if threading sc ops o then [] else ["threading"]) ++ (if order ops o then [] else ["order"]) ++
+  (if onceOnly ops o then [] else ["once"]) ++ (if stored sc ops o then [] else ["stored"]) ++
+  (if getters sc ops o then [] else ["getters"])
 
 def eventOps : List String → Option String
   | "c13" :: scr :: ops => do
     let sc ← parseScripts scr
-    let dv ← runOps sc 0 ⟨init, [], [], none⟩ ops
+    let ops ← ops.mapM parseOp
+    let dv := runOps sc ops
     let verdict := match dv.bad with
       | some k => s!"reject@{k}"
       | none => if dv.ready.isEmpty then "ok" else "reject@end"
-    pure s!"{verdict} LOG {showLog dv.s.log} SNAPS {String.intercalate ";" dv.snaps}"
+    let o := obsOf dv.s dv.snaps
+    pure s!"{verdict} LOG {showLog o.log} SNAPS {String.intercalate ";" (o.snaps.map showSnap)} W {joinOr (o.wmeta.map showMeta)}"
+  | "c13judge" :: scr :: rest => do
+    let sc ← parseScripts scr
+    let ops ← (rest.takeWhile (· ≠ "|")).mapM parseOp
+    match (rest.dropWhile (· ≠ "|")) with
+    | ["|", lg, "|", sn, "|", wm] =>
+      let log ← (splitList lg).mapM parseLogO
+      let snaps ← (if sn = "-" then some [] else (sn.splitOn ";").mapM parseSnap)
+      let wmeta ← (splitList wm).mapM parseMeta
+      let o : Obs := ⟨log, snaps, wmeta⟩
+      pure (if spec sc ops o then "pass" else "fail:" ++ String.intercalate "+" (failing sc ops o))
+    | _ => none
   | _ => none
 
 end PlumVerif.C13
